@@ -15,7 +15,7 @@
    len(x) < 2^63, arrays of their declared length. *)
 From Coq Require Import List NArith ZArith Bool Lia ZifyN ZifyNat ZifyBool.
 Import ListNotations.
-From HV Require Import Lib.Bytes Lib.U64 Model.Fees Model.Prefixes Model.ValidityWindow Model.TxStatic Model.Estimate Model.Keys.
+From HV Require Import Lib.Bytes Lib.U64 Model.Fees Model.Prefixes Model.ValidityWindow Model.TxStatic Model.Estimate Model.Units Model.Keys.
 From HV Require Import Gen.Prelude Gen.Leaf.
 Local Open Scope Z_scope.
 
@@ -500,3 +500,31 @@ Proof.
   f_equal. rewrite Z.quot_div_nonneg by lia.
   rewrite N2Z.inj_div, N2Z.inj_add, N2Z.inj_mul. reflexivity.
 Qed.
+
+(* ------------------------------------------------------------------ Model/Units.v (C12)
+   carries its own copies of keys.Valid and keys.MaxChunks; they are the same functions *)
+Lemma units_max_chunks_eq (k : bytes) : Units.max_chunks k = Keys.max_chunks k.
+Proof.
+  unfold Units.max_chunks. destruct (Nat.ltb_spec (length k) 2) as [Hs|Hs].
+  - symmetry. apply max_chunks_short'. exact Hs.
+  - destruct (split_last2 k Hs) as [pre [hi [lo ->]]]. rewrite max_chunks_app2.
+    rewrite app_length. cbn [length].
+    rewrite (skipn_app_exact pre [hi; lo]) by lia.
+    unfold be_dec. cbn [fold_left]. f_equal; lia.
+Qed.
+
+Lemma keys_MaxChunks_equiv_units (k : bytes) : len_ok k ->
+  keys_MaxChunks (zs k) = Some (ok_pair (Units.max_chunks k)).
+Proof. intros H. rewrite units_max_chunks_eq. apply keys_MaxChunks_equiv. exact H. Qed.
+
+Lemma keys_Valid_equiv_units (k : bytes) : keys_Valid (zs k) = Units.key_valid k.
+Proof. apply keys_Valid_equiv. Qed.
+
+(* ------------------------------------------------------------------ summary *)
+Definition gen_tie_all :=
+  (keys_Valid_equiv, keys_MaxChunks_equiv, keys_DecodeChunks_equiv, keys_numChunks_equiv, keys_NumChunks_equiv,
+   keys_VerifyValue_equiv, keys_Verify_equiv, keys_Encode_equiv, keys_EncodeChunks_equiv,
+   state_Permissions_Has_equiv, validitywindow_VerifyTimestamp_equiv, validitywindow_VerifyTimestamp_equiv_static,
+   fees_Add_equiv, fees_MulSum_equiv, fees_Dimensions_CanAdd_equiv, fees_Dimensions_Greater_equiv,
+   metadata_HasConflictingPrefixes_equiv, ifees_mulDiv_equiv, keys_MaxChunks_equiv_units, keys_Valid_equiv_units).
+Print Assumptions gen_tie_all.
